@@ -1,4 +1,4 @@
-//@@ unit props=C14,C06
+//@@ unit props=C14,C06,C16
 // Unit colname: utils::push_column (column letters used by the xls/xlsb formula renderers), verbatim text.
 #![allow(unused_imports, dead_code, unused_variables, unused_mut, unused_assignments)]
 use vstd::prelude::*;
@@ -104,16 +104,16 @@ pub broadcast proof fn axiom_iter_chars_rev_chars(it: core::iter::Rev<core::str:
     ensures #[trigger] iter_chars(it) == it.remaining(),
 {}
 
-//@@ fn src/utils.rs push_column props=C14 entry
+//@@ fn src/utils.rs push_column props=C14,C16 entry
 //@@ sig
     ensures
-        //# C14.column_letters_frame
+        //# C14,C16.column_letters_frame
         final(buf)@.len() >= old(buf)@.len() && final(buf)@.subrange(0, old(buf)@.len() as int) == old(buf)@,
-        //# C14.column_letters_uppercase
+        //# C14,C16.column_letters_uppercase
         all_upper_c(appended(old(buf)@, final(buf)@)),
-        //# C14.column_letters_len
+        //# C14,C16.column_letters_len
         col < 16384 ==> 1 <= appended(old(buf)@, final(buf)@).len() <= 3,
-        //# C14.column_letters
+        //# C14,C16.column_letters
         b26c(appended(old(buf)@, final(buf)@)) == col + 1,
 //@@ body
     broadcast use axiom_iter_chars_rev_chars;
